@@ -576,6 +576,12 @@ func (m *Message) PutString(ctx context.Context, s string) error {
 	// Ensure we have space for the data (plus length prefix if encrypted)
 	needed := length
 	if isEncrypted {
+		// The length prefix is an int32 on the wire; a longer string would be
+		// announced with a wrapped (negative or too small) length that no
+		// receiver can decode, so refuse it before anything is written.
+		if length > math.MaxInt32 {
+			return fmt.Errorf("string of %d bytes exceeds the int32 length prefix of an encrypted stream", length)
+		}
 		needed += 8 // int32 length prefix (stored as int64)
 	}
 
@@ -634,6 +640,10 @@ func (m *Message) PutStringBytes(ctx context.Context, b []byte) error {
 
 	needed := length
 	if isEncrypted {
+		// See PutString: the int32 length prefix cannot represent this string.
+		if length > math.MaxInt32 {
+			return fmt.Errorf("string of %d bytes exceeds the int32 length prefix of an encrypted stream", length)
+		}
 		needed += 8
 	}
 
